@@ -26,8 +26,10 @@ def EnvOK (env : String → Option Val) (p : List (PStep Val)) : Prop :=
 /-- Every value-dependent shortcut a program takes is semantically neutral (the requirement the property names); programs
 that take shortcuts are considered over total operator semantics and environments that bind every placeholder. -/
 def ShortcutsNeutral (env : String → Option Val) (p : List (PStep Val)) : Prop :=
-  ∀ op args g choice, PStep.guarded op args g choice ∈ p →
-    Neutral sem op args.length g choice ∧ Total sem ∧ ∀ n, ∃ v, env n = some v
+  (∀ op args g choice, PStep.guarded op args g choice ∈ p →
+    Neutral sem op args.length g choice ∧ Total sem ∧ ∀ n, ∃ v, env n = some v) ∧
+  (∀ op a b chA chB, PStep.guarded2 op a b chA chB ∈ p →
+    Neutral2 sem op chA chB ∧ Total sem ∧ ∀ n, ∃ v, env n = some v)
 
 theorem stepsRel_of_prog (env : String → Option Val) (lz1 lz2 : String → Bool)
     (hl : ∀ n, lz1 n = true → lz2 n = true) :
@@ -39,12 +41,17 @@ theorem stepsRel_of_prog (env : String → Option Val) (lz1 lz2 : String → Boo
   | cons s ss ih =>
     intro henv hN
     have hss : EnvOK env ss := fun n v hm => henv n v (List.mem_cons_of_mem _ hm)
-    have hNs : ShortcutsNeutral sem env ss := fun op args g choice hm => hN op args g choice (List.mem_cons_of_mem _ hm)
+    have hNs : ShortcutsNeutral sem env ss :=
+      ⟨fun op args g choice hm => hN.1 op args g choice (List.mem_cons_of_mem _ hm),
+       fun op a b chA chB hm => hN.2 op a b chA chB (List.mem_cons_of_mem _ hm)⟩
     refine .cons ?_ (ih hss hNs)
     cases s with
     | guarded op args g choice =>
-      obtain ⟨h1, h2, h3⟩ := hN op args g choice (by simp)
+      obtain ⟨h1, h2, h3⟩ := hN.1 op args g choice (by simp)
       exact .guarded op args g choice h1 h2 h3
+    | guarded2 op a b chA chB =>
+      obtain ⟨h1, h2, h3⟩ := hN.2 op a b chA chB (by simp)
+      exact .guarded2 op a b chA chB h1 h2 h3
     | input n v =>
       simp only [PStep.toStep]
       by_cases h1 : lz1 n = true
@@ -97,12 +104,14 @@ example :
 /-- Programs without shortcuts need no neutrality hypothesis. -/
 theorem refinement_no_shortcuts (env : String → Option Val) (ort : Bool) (S : String → Bool)
     (p : List (PStep Val)) (henv : EnvOK env p)
-    (hns : ∀ op args g choice, PStep.guarded op args g choice ∉ p) (he : Heap Val)
+    (hns : ∀ op args g choice, PStep.guarded op args g choice ∉ p)
+    (hns2 : ∀ op a b chA chB, PStep.guarded2 op a b chA chB ∉ p) (he : Heap Val)
     (hrun : runProg sem ort (fun _ => false) p [] = some he) :
     ∃ hlz, runProg sem ort S p [] = some hlz ∧ hlz.length = he.length ∧
       ∀ (i : Nat) (c c' : Cell Val), he[i]? = some c → hlz[i]? = some c' →
         ∀ v, c.eager = some v → eval sem env c'.var = some v :=
-  refinement_partial sem env ort S p henv (fun op args g choice hm => absurd hm (hns op args g choice)) he hrun
+  refinement_partial sem env ort S p henv
+    ⟨fun op args g choice hm => absurd hm (hns op args g choice), fun op a b chA chB hm => absurd hm (hns2 op a b chA chB)⟩ he hrun
 
 /-- Non-vacuity of the shortcut case: `Where` over integers ("c ≠ 0 selects x"), guarded on operand 0 with the choice
 "true → operand 1, false → operand 2" — both shortcuts of `where` — is neutral and total; the eager run (condition holds
@@ -155,5 +164,35 @@ theorem where_shortcut_unsound_without_guard :
   where_shortcut_needs_guard
 
 example : singleElementOfRankLe [1, 1] [4, 5] = true ∧ bshape [1, 1] [4, 5] = some [4, 5] := by decide
+
+/-- The two-sided shortcuts of `logical_and` / `logical_or`: `and(true, y) ↦ y`, `and(x, true) ↦ x`, `or(false, y) ↦ y`,
+`or(x, false) ↦ x` are neutral and the operators total. -/
+def boolSem : String → List Bool → Option Bool
+  | "And", [x, y] => some (x && y)
+  | "Or", [x, y] => some (x || y)
+  | _, vs => some (vs.all id)
+
+theorem and_neutral : Neutral2 boolSem "And" id id := by
+  intro va vb
+  constructor <;> intro h <;> simp at h <;> subst h <;> simp [boolSem]
+
+theorem or_neutral : Neutral2 boolSem "Or" (fun v => !v) (fun v => !v) := by
+  intro va vb
+  constructor <;> intro h <;> simp at h <;> subst h <;> simp [boolSem]
+
+theorem bool_total : Total boolSem := by
+  intro op vs
+  unfold boolSem
+  split <;> exact ⟨_, rfl⟩
+
+/-- Non-vacuity: `and(x, y)` and `and(y, x)` with `x = true`; eagerly both calls hand back a copy of `y`; traced with
+`x` a placeholder the first emits the node, the second takes the second-operand shortcut… only if `y` is true — here
+`y = false`, so both emit nodes; all denote the eager values. -/
+example :
+    let p : List (PStep Bool) := [.input "x" true, .input "y" false, .guarded2 "And" 0 1 id id, .guarded2 "And" 1 0 id id,
+      .guarded2 "Or" 1 0 (fun v => !v) (fun v => !v)]
+    (runProg boolSem true (fun _ => false) p []).map (·.map (·.eager)) = some [some true, some false, some false, some false, some true]
+    ∧ (runProg boolSem true (· == "x") p []).map (·.map (fun c => eval boolSem (fun n => if n == "x" then some true else none) c.var))
+        = some [some true, some false, some false, some false, some true] := by decide
 
 end Ndx.C01
